@@ -78,6 +78,7 @@ var (
 	c33FAC   = common.HexToAddress("0xfa00000000000000000000000000000000000f03") // CREATE2 factory of K
 	c33FACSD = common.HexToAddress("0xfb00000000000000000000000000000000000f04") // creates and self-destructs M in one transaction
 	c33FACSD2 = common.HexToAddress("0xfc00000000000000000000000000000000000f15") // CREATE2 of M2 whose constructor self-destructs to X
+	c33LOOP   = common.HexToAddress("0x1000000000000000000000000000000000000f17") // endless loop: burns the whole gas limit of the call as execution gas
 	c33FACSD3 = common.HexToAddress("0xfd00000000000000000000000000000000000f16") // the same onto M3, an address that holds a balance in genesis
 	c33D     = common.HexToAddress("0xd000000000000000000000000000000000000d05") // self-destructs to X when called with data
 	c33DLG   = common.HexToAddress("0xd100000000000000000000000000000000000d06") // delegation target of E
@@ -238,6 +239,7 @@ func c33NewWorld() *c33World {
 		c33FACSD2:     {Code: sdFactory(3), Balance: common.Big0, Nonce: 1},
 		c33FACSD3:     {Code: sdFactory(4), Balance: common.Big0, Nonce: 1},
 		w.m3:          {Balance: big.NewInt(7)},
+		c33LOOP:       {Code: []byte{byte(vm.JUMPDEST), byte(vm.PUSH0), byte(vm.JUMP)}, Balance: common.Big0, Nonce: 1},
 		c33D:          {Code: d, Balance: big.NewInt(1000), Nonce: 1, Storage: map[common.Hash]common.Hash{{}: common.BigToHash(big.NewInt(1))}},
 		c33DLG:        {Code: c33Adder(), Balance: common.Big0, Nonce: 1},
 		c33REV:        {Code: rev, Balance: common.Big0, Nonce: 1},
@@ -304,6 +306,15 @@ func c33NewWorld() *c33World {
 			})
 		}}
 	}
+	gasTx := func(name string, sender int, to common.Address, value int64, gas uint64) c33TxSpec {
+		return c33TxSpec{name: name, sender: sender, to: to, make: func(w *c33World, nonce uint64) *types.Transaction {
+			return types.MustSignNewTx(w.keys[sender], w.env.signer, &types.DynamicFeeTx{
+				ChainID: w.env.cfg.ChainID, Nonce: nonce, To: &to, Value: big.NewInt(value), Gas: gas, GasFeeCap: newGwei(10), GasTipCap: newGwei(1),
+			})
+		}}
+	}
+	burn := gasTx("BURN_6M_C", c33C, c33LOOP, 0, 6_000_000)
+	bigGas := gasTx("GAS_28M_B", c33B, w.addrs[c33A], 1, 28_000_000)
 	w.txs = []c33TxSpec{
 		call("INC_A", c33A, c33CTR, 0, c33Word(1)),
 		call("DEC_B", c33B, c33CTR, 0, c33Word(-1)),
@@ -340,8 +351,12 @@ func c33NewWorld() *c33World {
 		call("FUND_M2_B", c33B, w.m2, 11, nil),
 		call("FACSD2_C", c33C, c33FACSD2, 0, nil),
 		call("FACSD3_B", c33B, c33FACSD3, 0, nil),
+		// block-level gas accounting (two dimensions in Amsterdam): a transaction that burns 6M execution gas and a
+		// plain transfer whose gas limit (28M) is above params.MaxTxGas, in a 30M block, in both orders
+		burn,
+		bigGas,
 	}
-	w.raceAlphabet = len(w.txs) - 4 // the race step keeps to the entries before these
+	w.raceAlphabet = len(w.txs) - 6 // the race step keeps to the entries before these
 	// Code blobs that come into existence inside the explored blocks must not already exist in the
 	// parent state: the code database is keyed by hash, so an identical blob in genesis would make a
 	// reader that ignores the block's own code changes look correct.
